@@ -1,1 +1,81 @@
-fn main(){}
+//! waxmon — runtime monitors for the properties C01..C20 of `wax`.
+//!
+//!   waxmon run <Cxx> <quick|thorough> [--replay <file>]
+//!   waxmon worker <Cxx> <tier> <seed> <shard> <nshards> <outfile> <scratch> [from] [skip,skip,..]
+
+mod case;
+mod ctx;
+mod driver;
+mod findings;
+mod gen;
+mod monitors;
+mod prng;
+mod refmodel;
+mod report;
+
+fn main() {
+    let args: Vec<String> = std::env::args().collect();
+    let code = match args.get(1).map(|s| s.as_str()) {
+        Some("run") => driver::run(&args[2..]),
+        Some("worker") => driver::worker(&args[2..]),
+        Some("probe") => probe(&args[2..]),
+        _ => {
+            eprintln!("usage: waxmon run <Cxx> <quick|thorough> [--replay <file>]");
+            2
+        },
+    };
+    std::process::exit(code);
+}
+
+/// Debugging aid: `waxmon probe <expr> [path..]` prints what the implementation and the model say.
+fn probe(args: &[String]) -> i32 {
+    use wax::Program;
+    let expr = match args.first() {
+        Some(e) => e,
+        None => return 2,
+    };
+    match wax::Glob::new(expr) {
+        Err(e) => println!("build: Err({})", e),
+        Ok(g) => {
+            println!("regex: {}", g.verif_program_pattern());
+            println!(
+                "depth={} text={:?} root={} exhaustive={} semantic={} components={:?}",
+                monitors::group_a::depth_str(&g.depth()),
+                monitors::group_a::text_str(&g.text()),
+                monitors::group_a::when_str(g.has_root()),
+                monitors::group_a::when_str(g.is_exhaustive()),
+                g.has_semantic_literals(),
+                g.verif_walk_component_patterns(),
+            );
+            println!("captures: {:?}", g.captures().map(|c| (c.index(), c.span())).collect::<Vec<_>>());
+            let (prefix, post) = g.clone().partition();
+            println!("partition: {:?} + {:?}", prefix, post.map(|p| p.to_string()));
+            let model = refmodel::parse::parse(expr).ok().map(refmodel::matcher::ModelPattern::single);
+            if let Some(m) = &model {
+                println!("model notes: {:?}", m.asts[0].0.notes);
+            }
+            else {
+                println!("model: does not parse: {:?}", refmodel::parse::parse(expr).err());
+            }
+            for p in &args[1..] {
+                let cand = wax::CandidatePath::from(p.as_str());
+                let caps: Vec<Option<String>> = g
+                    .matched(&cand)
+                    .map(|m| (0..6).map(|i| m.get(i).map(|s| s.to_string())).collect())
+                    .unwrap_or_default();
+                let (may, must) = match &model {
+                    Some(m) => {
+                        let pc = refmodel::matcher::chars(p);
+                        (
+                            format!("{:?}", m.matches(&pc, refmodel::matcher::Mode::May, Default::default())),
+                            format!("{:?}", m.matches(&pc, refmodel::matcher::Mode::Must, Default::default())),
+                        )
+                    },
+                    None => ("-".into(), "-".into()),
+                };
+                println!("  {:?}: impl={} may={} must={} caps={:?}", p, g.is_match(p.as_str()), may, must, caps);
+            }
+        },
+    }
+    0
+}
